@@ -122,6 +122,9 @@ bool splinetable<Alloc>::write_key(const char* key, const T& value){
 										 "contain lowercase characters (key was '"+
 										 std::string(key)+"')");
 		}
+		if(keylen-1>66)
+			throw std::runtime_error("FITS header keyword is too long to be stored "
+									 "with any value (key was '"+std::string(key)+"')");
 		maxdatalen=80-(13+keylen-1); //14 characters for "HIERARCH ", "= '", and "'"
 	}
 	std::ostringstream ss;
